@@ -129,7 +129,7 @@ class C02(Check):
                   for v in ('2', '2.', '.0', '0', '.', '', '2.00')],
                 *[{**base, 'text': t({'jsonrpc': v, 'method': 'noargs', 'id': 7})} for v in ('2', '', '.0')],
             ]
-        return out + stdreg.exception_corpus('MARKER-c02-zq')
+        return out + stdreg.exception_corpus('MARKER-c02-zq') + stdreg.rpc_error_corpus()
 
     # -- run -------------------------------------------------------------------------------------------
 
